@@ -110,7 +110,7 @@ Section no_panic.
     assert (IHa : forall cx, np_a (eval_a e M F f cx)) by (intros c; apply IH).
     split.
     - intros p src st Hp. rewrite eval_v_S. destruct p as [| |al q|m|c args fl|t a0|ini tp a0|el a0|ini t cases dflt]; cbn [pf_v] in Hp.
-      + discriminate.
+      + destruct (plain src); discriminate.
       + discriminate.
       + pose proof (IHv cx q src st Hp) as H1. destruct (eval_v e M F f cx q src st) as [[r st1]| | | |]; cbn [obind]; try congruence.
         destruct al; discriminate.
